@@ -95,6 +95,21 @@ def run_c07(t, tier, res):
             res.violate("C07", "config_file_list_differs_from_directory", {"section": sec, "listed": listed, "on_disk": on_disk})
             return
     interesting = any(any((not c.isascii()) or c.isspace() for c in v) for pairs in ref.flat.values() for v, _ in pairs)
+    # what is on disk is what the segmentation produced (nothing stripped, split or merged on the way)
+    from ..refseg import Tally
+    if not any("İ" in p for p in pws):
+        tally = Tally()
+        for _pw, sec in tr.cap.parses:
+            if sec is not None:
+                tally.add(sec)
+        for letter, groups in (("A", tally.alpha), ("C", tally.masks), ("D", tally.digits), ("O", tally.other), ("K", tally.keyboard)):
+            for n, counter in groups.items():
+                var = "%s%d" % (letter, n)
+                on_disk = sorted(v for v, _ in ref.flat.get(var, []))
+                if on_disk != sorted(counter):
+                    res.violate("C07", "value_on_disk_is_not_the_trained_value", {
+                        "variable": var, "trained": repr(sorted(counter)[:6]), "on_disk": repr(on_disk[:6]), "encoding": enc})
+                    return
     # 1. guesser loader
     from lib_guesser.grammar_io import load_grammar as g_load, load_omen_keyspace
     try:
